@@ -138,10 +138,10 @@ Definition function_routes : list (string * string) := [
 (* structure of Tensor.__array_ufunc__ / _as_constant_array, read from the source *)
 Definition au_honours_method_registered : bool := true.
 Definition au_honours_method_fallback : bool := true.
-Definition au_fallback_casters : list (string * string) := [("_REGISTERED_BOOL_ONLY_UFUNC", "_as_array_operand"); ("_REGISTERED_CONST_ONLY_UFUNC", "_as_array_operand")].
+Definition au_fallback_casters : list (string * string) := [("_REGISTERED_BOOL_ONLY_UFUNC", "_as_array_operand"); ("_REGISTERED_CONST_ONLY_UFUNC", "_as_constant_array")].
 Definition au_else_notimplemented : bool := true.
-Definition au_constonly_becomes_valueerror : bool := false.
-Definition const_caster_raises_on_nonconstant : bool := false.
+Definition au_constonly_becomes_valueerror : bool := true.
+Definition const_caster_raises_on_nonconstant : bool := true.
 (* operators with several routes: the types of `other` for which a shortcut route may be taken *)
 Definition shortcut_operand_types : list (string * list string) := [("__ipow__", ["Number"; "np.ndarray"]); ("__pow__", ["Number"; "np.ndarray"])].
 Definition np_func_override : list (string * string) := [   (* numpy function -> mygrad function it is overridden by *)
